@@ -415,4 +415,16 @@ def stateIndex (I : Inst) (m j c i : Nat) : Nat :=
 /-- decision-vector index of (control `j`, time index); the same for every member -/
 def ctrlIndex (I : Inst) (j i : Nat) : Nat := offsetOf I.controls j + i
 
+/-- slots are well formed: a scalar-time slot (extra variable, initial derivative) has one stamp -/
+def WF (b : Blk) : Prop := b.scalarT = true → b.n = 1
+
+/-- scaled bound written into the decision vector for (component, stamp) of slot `b` -/
+def scaledBound (lower : Bool) (b : Blk) (c i : Nat) : Option XVal :=
+  (sideAt b (sideOf lower b) (fillOf lower) c i).map fun x => xdivPos x (b.nom.at c)
+
+/-- a history whose last stamp is `t0`: earlier stamps `pt` (all before `t0`) with values `pv`
+    (`none` = NaN), then the entry at `t0` -/
+def histEndingAt (pt : List Rat) (pv : List (Option Rat)) (t0 : Rat) (v0 : Option Rat) : Hist :=
+  { times := pt ++ [t0], vals := pv ++ [v0] }
+
 end RtcVerif.C05
